@@ -140,6 +140,7 @@ def plan(tier, seed):
     shards = [{"mode": "single", "index": i, "count": 12} for i in range(12)]
     pubs = 4
     shards += [{"mode": "bfs", "first": i} for i in range(pubs)]
+    shards += [{"mode": "stateless", "index": i, "count": 4} for i in range(4)]
     return {"shards": shards}
 
 
@@ -183,8 +184,9 @@ def run_shard(sh):
     def scope_of(name):
         return {"task-A": ("A", "version"), "scene-A": ("A", "scene"), "movie-A": ("A", "movie"), "task-B": ("B", "version")}[name]
 
-    def apply_real(op):
-        env.reset()
+    def apply_real(op, reset=True):
+        if reset:
+            env.reset()
         x = Sid(psid[op[1]])
         try:
             new = x.get_new("version")
@@ -224,6 +226,29 @@ def run_shard(sh):
     def model_key(model):
         return tuple(sorted((k, v) for k, v in model.items()))
 
+    if sh["mode"] == "stateless":
+        # publishing sequences in one continuous process state: no cache reset, no tree restore, long-lived Finders
+        L = 6 if sh["tier"] == "thorough" else 4
+        n = 0
+        for l in range(1, L + 1):
+            for seq in itertools.product(OPS, repeat=l):
+                n += 1
+                if n % sh["count"] != sh["index"]:
+                    continue
+                env.clear_tree()
+                env.reset()
+                model = {}
+                for i, op in enumerate(seq):
+                    got = apply_real(op, reset=False)
+                    model, want = model_apply(model, op)
+                    rec.transitions += 1
+                    if got != want:
+                        rec.violation("publish-without-reset/" + bfs._sig(op, got, want), "sequence", {"hist": [list(o) for o in seq[: i + 1]]}, got, want)
+                        break
+                rec.traces += 1
+                rec.case("publish-sequence-no-reset-len-%d" % l, True, sample=[o[1] for o in seq])
+        rec.extra = {"mode": "stateless", "max_len": L}
+        return rec.result()
     env.clear_tree()
     model = {}
     hist = []
@@ -260,8 +285,11 @@ def replay_case(kind, case):
     env.clear_tree()
     psid = dict(publishers(C))
     model = {}
-    for i, op in enumerate(case["hist"]):
+    if kind == "sequence":
         env.reset()
+    for i, op in enumerate(case["hist"]):
+        if kind != "sequence":
+            env.reset()
         x = Sid(psid[op[1]])
         try:
             new = x.get_new("version")
@@ -290,6 +318,8 @@ def replay_case(kind, case):
         if got != want:
             from mc import bfs
             sig = "publish-result/first" if len(case["hist"]) == 1 else "operation-result/" + bfs._sig(op, got, want)
+            if kind == "sequence":
+                sig = "publish-without-reset/" + bfs._sig(op, got, want)
             out.append(dict(signature=sig, observed=got, expected=want))
     return out
 
